@@ -46,7 +46,7 @@ func (e *c10Env) c10Forward(s c10Start, t c10Stop, st *c10State, caseSeed uint64
 		return
 	}
 	fail := func(kind, what string) {
-		fp := fmt.Sprintf("C10:fwd:%s:start=%s:stop=%s:log=%s", kind, s.Class, t.Class, e.shape.label())
+		fp := fmt.Sprintf("C10:fwd:%s:start=%s:stop=%s", kind, s.Class, t.Class)
 		if cause == "" {
 			// the segment list may have changed since the state was read
 			// (background roll of the active segment): probe again
@@ -59,6 +59,8 @@ func (e *c10Env) c10Forward(s c10Start, t c10Stop, st *c10State, caseSeed uint64
 		if cause != "" {
 			c10Mark("fwd|" + cause)
 			fp = fmt.Sprintf("C10:fwd:%s:%s", cause, kind)
+		} else {
+			c10Unattributed.Add(1)
 		}
 		rep.Violation(fp, fmt.Sprintf("%s on %s log: %s", reqStr, e.shape.label(), what), witness(what))
 	}
@@ -296,6 +298,9 @@ func c10GenShape(rng *kit.RNG, i int, reverse bool) c10Shape {
 		sh.Tail = 1 // label only: the uncommitted suffix is what was not committed before Clean()
 	}
 	sh.Readonly = !sh.EmptyActive && i%5 == 3 || (i%10 == 6)
+	if sh.Kind != "dense" && sh.Kind != "empty" && !reverse {
+		sh.CleanWaiting = rng.Bool()
+	}
 	return sh
 }
 
@@ -332,6 +337,9 @@ func c10Run(t *testing.T, unit string, reverse bool, nShapes, nCases int) {
 		seeds[i] = root.Uint64()
 	}
 	kit.Parallel(nShapes, kit.Workers(), func(i int) {
+		if c10Unattributed.Load() >= c10UnattributedCap {
+			return
+		}
 		rng := kit.NewRNG(seeds[i])
 		sh := c10GenShape(rng, i, reverse)
 		e, err := c10Build(rep, c, srv, sh, seeds[i])
@@ -377,7 +385,7 @@ func (e *c10Env) runForwardCases(rng *kit.RNG, nCases int) {
 	plan := c10Plan(rng, c10StartClasses, c10StopClasses)
 	done := 0
 	for _, pr := range plan {
-		if done >= nCases {
+		if done >= nCases || c10Unattributed.Load() >= c10UnattributedCap {
 			break
 		}
 		st, err := e.state()
@@ -459,7 +467,8 @@ func (e *c10Env) c10ReadonlyTransition(rng *kit.RNG) {
 	queue := w.inRange(st.committed())
 	expected := append([]c10Msg(nil), queue...)
 	fail := func(kind, what string) {
-		rep.Violation(fmt.Sprintf("C10:fwd:readonly-while-subscribed:%s:start=%s:log=%s", kind, s.Class, e.shape.label()),
+		c10Unattributed.Add(1)
+		rep.Violation(fmt.Sprintf("C10:fwd:readonly-while-subscribed:%s:start=%s", kind, s.Class),
 			fmt.Sprintf("%s on %s log, stream set read-only while subscribed: %s", reqStr, e.shape.label(), what),
 			map[string]any{"seed": kit.Seed(), "shape_seed": e.seed, "shape": e.shape, "log": st.summary(), "request": reqStr,
 				"expected_offsets": c10Offs(expected), "delivered_offsets": c10Offs(delivered), "observed": what})
